@@ -30,6 +30,7 @@ import KafkaVerif.Lemmas.RecordReader
 import KafkaVerif.Props.C02
 import KafkaVerif.Lemmas.ByteTokens
 import KafkaVerif.Gen.RecordConsts
+import KafkaVerif.Gen.RecordLayout
 
 namespace KV.Props.C05
 open KV KV.RW KV.Spec.RB
@@ -445,6 +446,41 @@ theorem gen_consts_match_spec :
   · intro a; rfl
   · intro a; simp only [isControl, Gen.RecordConsts.controlConst]; rfl
   · intro bs; rfl
+
+/-- wire fields of the reference layout in order (kinds: 1/2/4/8 = fixed width in bytes, 10 varint, 11 varbytes,
+12 varstring, 13 bytes with int32 length, 14 var array count): a v2 batch header; a v2 record up to the header count;
+one record header; a v1 message from its offset field on -/
+def specFrameFields : List Nat := [8, 4, 4, 1, 4, 2, 4, 8, 8, 8, 2, 4, 4]
+def specRecordFields : List Nat := [10, 1, 10, 10, 11, 11, 10]
+def specHeaderFields : List Nat := [12, 11]
+def specMsgFields : List Nat := [8, 4, 4, 1, 1, 8, 13, 13]
+
+/-- the fixed-width part of that list is the Spec encoder's: 61 bytes before the records, in this order -/
+theorem spec_frame_fields (crc : Bytes → Nat) (f : FrameV2) :
+    specFrameFields.foldl (· + ·) 0 = (encFrame crc { f with payload := [] }).length ∧
+    encFrame crc f = i64 f.baseOffset ++ (i32 ((9 + (frameBody f).length : Nat) : Int) ++ (i32 f.leaderEpoch ++ (i8 2 ++
+      (u32 (crc (frameBody f)) ++ (i16 f.attributes ++ (i32 f.lastOffsetDelta ++ (i64 f.firstTs ++ (i64 f.maxTs ++
+      (i64 f.producerId ++ (i16 f.producerEpoch ++ (i32 f.baseSeq ++ (i32 f.count ++ f.payload)))))))))))) := by
+  refine ⟨by simp [specFrameFields, encFrame, frameBody], rfl⟩
+
+/-- The ORDER and WIDTH of the fields every writer writes and every reader reads, extracted from the sequence of
+read*/write* calls in the Go sources on every run (`go/extract recordlayout`), are the reference layout's:
+`writeToVersion2`, `readFromVersion2` (which reads key/value lengths as bare varints), `writeToVersion1`,
+`readMessage` (key/value lengths as int32), Conn `writeRecordBatch` (CRC dry run over attributes..count on one
+writer, then the full header on the other), `writeRecord`, `writeMessage` (CRC dry run from the magic byte on),
+and `messageSetReader.readHeader` for magic 0, 1 and 2. -/
+theorem gen_field_order :
+    Gen.RecordLayout.protoWriteV2.map (·.2) = specFrameFields ++ specRecordFields ++ specHeaderFields
+    ∧ Gen.RecordLayout.protoReadV2.map (·.2) = specFrameFields ++ [10, 1, 10, 10, 10, 10, 10] ++ specHeaderFields
+    ∧ Gen.RecordLayout.protoWriteV1.map (·.2) = specMsgFields
+    ∧ Gen.RecordLayout.protoReadMsg.map (·.2) = [8, 4, 4, 1, 1, 8, 4, 4]
+    ∧ Gen.RecordLayout.connWriteBatch = (specFrameFields.drop 5).map (fun k => (0, k)) ++ specFrameFields.map (fun k => (1, k))
+    ∧ Gen.RecordLayout.connWriteRecord.map (·.2) = [10, 1, 10, 10, 11, 11, 14] ++ specHeaderFields
+    ∧ Gen.RecordLayout.connWriteMessage = (specMsgFields.drop 3).map (fun k => (0, k)) ++ specMsgFields.map (fun k => (1, k))
+    ∧ (Gen.RecordLayout.connReadHeaderPrefix ++ Gen.RecordLayout.connReadHeaderMagic2).map (·.2) = specFrameFields
+    ∧ (Gen.RecordLayout.connReadHeaderPrefix ++ Gen.RecordLayout.connReadHeaderMagic1).map (·.2) = specMsgFields.take 6
+    ∧ (Gen.RecordLayout.connReadHeaderPrefix ++ Gen.RecordLayout.connReadHeaderMagic0).map (·.2) = specMsgFields.take 5 := by
+  decide
 
 /-! ## Part D — pages (protocol/buffer.go) -/
 
